@@ -1,0 +1,175 @@
+//go:build verif
+
+package align
+
+// Contracts for property C05, second part (author C05b): reference-guided translation, codon alignment.
+
+// index of the first row called `name`, -1 when there is none
+//@ func (*seqbag).GetSequenceIdByName
+//@   props C05 C19
+//@   requires sb != nil && rowsok(sb)
+//@   ensures result == -1 ==> forall r :: 0 <= r && r < nrows(sb) ==> rowname(sb, r) != name
+//@   ensures result != -1 ==> 0 <= result && result < nrows(sb) && rowname(sb, result) == name && (forall r :: 0 <= r && r < result ==> rowname(sb, r) != name)
+//@   modifies nothing
+//@   loop 1
+//@     invariant forall r :: 0 <= r && r < $i ==> rowname(sb, r) != name
+//@     decreases nrows(sb) - $i
+
+// ---- reference-guided translation ----
+
+// the buffers of `make([]bytes.Buffer, n)` are the objects b+1 .. b+n of the array object b (engine model of arrays of library structs)
+//@ pure func c5b_bl(b int, r int) int = gf(buflen, b + 1 + r)
+//@ pure func c5b_bd(b int, r int, k int) int = gfa(bufdata, b + 1 + r, k)
+// the three column indices of the current reference codon
+//@ pure func c5b_cons(rc []int) bool = rc[1] == rc[0] + 1 && rc[2] == rc[0] + 2
+// every buffer holds as many residues as the buffer of the reference row
+//@ pure func c5b_eq(b int, n int, ref int) bool = forall r :: 0 <= r && r < n ==> c5b_bl(b, r) == c5b_bl(b, ref)
+
+// a row (its first n columns) has no gap
+//@ pure func c5b_nogap(s *seq, n int) bool = forall p :: 0 <= p && p < n ==> s.sequence[p] != '-'
+// translation of one codon of a row when the reference has no gap: a gap for a full-gap codon, X for a partly gapped one
+// (frameshift), else the genetic code (tcrel: the relation proved of translateCodon)
+//@ pure func c5b_cod(code map[string]uint8, x int, n1 int, n2 int, n3 int) bool = (n1 == '-' && n2 == '-' && n3 == '-' ? x == '-' : (n1 == '-' || n2 == '-' || n3 == '-' ? x == 'X' : tcrel(code, x, n1, n2, n3)))
+// the first n residues in buffer r of block b translate the codons of row s from column `phase` on
+//@ pure func c5b_rowok(code map[string]uint8, b int, r int, s *seq, phase int, n int) bool = forall k :: 0 <= k && k < n ==> c5b_cod(code, c5b_bd(b, r, k), s.sequence[phase+3*k], s.sequence[phase+3*k+1], s.sequence[phase+3*k+2])
+
+//@ func (*align).TranslateByReference
+//@   props C05
+//@   requires wfa(a)
+//@   ensures (err == nil) == (0 <= phase && refseq != "" && old(has(a.seqmap, refseq)) && old(a.alphabet) == NUCLEOTIDS && validcode(geneticcode))
+//@   ensures err == nil ==> wfa(a) && nrows(a) == old(nrows(a))
+//@   ensures err == nil ==> forall r :: 0 <= r && r < nrows(a) ==> rowname(a, r) == old(rowname(a, r))
+//@   ensures err == nil && phase >= 0 ==> a.length == 0 || 3 * a.length <= old(a.length) - phase
+// when the reference row has no gap: floor((L-phase)/3) residues per row, each the translation of its own codon
+//@   ensures err == nil && old(c5b_nogap(a.seqmap[refseq], a.length)) ==> a.length == (old(a.length) >= phase ? (old(a.length) - phase) / 3 : 0)
+//# SLOW ensures err == nil && old(c5b_nogap(a.seqmap[refseq], a.length)) ==> forall r, k :: 0 <= r && r < nrows(a) && 0 <= k && k < a.length ==> c5b_cod(codeof(geneticcode), cell(a, r, k), old(cell(a, r, phase+3*k)), old(cell(a, r, phase+3*k+1)), old(cell(a, r, phase+3*k+2)))
+// the alphabet announced for the result is re-detected as plain Translate does: an alignment that still says "nucleotides" holds nucleotide symbols only
+// (DEFECT 2 on the unchanged code: the protein rows keep the alphabet NUCLEOTIDS)
+//@   ensures err == nil && a.alphabet == NUCLEOTIDS ==> forall r, k :: 0 <= r && r < nrows(a) && 0 <= k && k < a.length ==> ntsym(up8(cell(a, r, k)))
+//@   modifies a.seqs, a.seqmap, a.length, a.alphabet
+//@   assert_at github.com/evolbioinfo/goalign/align.(*align).AddSequence 1 : arg1 == old(rowname(a, i))
+//@   assert_at github.com/evolbioinfo/goalign/align.(*align).AddSequence 1 : !has(a.seqmap, arg1)
+//@   assert_at github.com/evolbioinfo/goalign/align.(*align).AddSequence 1 : a.length == -1 || a.length == len(arg2)
+//@   loop 1
+//@     invariant c5b_cons(refcodonidx) && refcodonidx[0] >= phase
+//@     invariant c5b_eq(base(newseqbuffer), nseq, refId) && c5b_bl(base(newseqbuffer), refId) >= 0
+//@     invariant phase >= 0 ==> 3 * c5b_bl(base(newseqbuffer), refId) <= refcodonidx[0] - phase
+//@     invariant refcodonidx[0] <= alen || c5b_bl(base(newseqbuffer), refId) == 0
+//@     invariant c5b_nogap(oldseqs[refId], alen) ==> refcodonidx[0] == phase + 3 * c5b_bl(base(newseqbuffer), refId)
+//# SLOW invariant c5b_nogap(oldseqs[refId], alen) ==> forall r :: 0 <= r && r < nseq ==> c5b_rowok(code, base(newseqbuffer), r, oldseqs[r], phase, c5b_bl(base(newseqbuffer), refId))
+//@     decreases alen - refcodonidx[2]
+//@   loop 2
+//@     modifies gf(buflen; base(newseqbuffer) + 1 + refId), gfa(bufdata; base(newseqbuffer) + 1 + refId)
+//@     invariant 0 <= i && i <= naa && c5b_bl(base(newseqbuffer), refId) == entry(c5b_bl(base(newseqbuffer), refId)) + i
+//@     decreases naa - i
+//@   loop 3
+//@     invariant c5b_cons(refcodonidx) && refcodonidx[0] >= entry(refcodonidx[0]) && refcodonidx[2] <= alen
+//@     invariant c5b_nogap(oldseqs[refId], alen) ==> refcodonidx[0] == entry(refcodonidx[0])
+//@     decreases alen - refcodonidx[2]
+//@   loop 4
+//@     invariant refcodonidx[0] == entry(refcodonidx[0]) && refcodonidx[2] == refcodonidx[1] + 1 && refcodonidx[1] > refcodonidx[0] && refcodonidx[2] <= alen
+//@     invariant c5b_nogap(oldseqs[refId], alen) ==> refcodonidx[1] == entry(refcodonidx[1])
+//@     decreases alen - refcodonidx[2]
+//@   loop 5
+//@     invariant refcodonidx[0] == entry(refcodonidx[0]) && refcodonidx[1] == entry(refcodonidx[1]) && refcodonidx[2] > refcodonidx[1] && refcodonidx[2] <= alen
+//@     invariant c5b_nogap(oldseqs[refId], alen) ==> refcodonidx[2] == entry(refcodonidx[2])
+//@     decreases alen - refcodonidx[2]
+//@   loop 6
+//@     modifies gf(buflen; base(newseqbuffer) + 1 + refId), gfa(bufdata; base(newseqbuffer) + 1 + refId)
+//@     invariant 1 <= i && i <= naa && c5b_bl(base(newseqbuffer), refId) == entry(c5b_bl(base(newseqbuffer), refId)) + i - 1
+//# SLOW invariant forall k :: 0 <= k && k < entry(c5b_bl(base(newseqbuffer), refId)) ==> c5b_bd(base(newseqbuffer), refId, k) == entry(c5b_bd(base(newseqbuffer), refId, k))
+//# SLOW invariant c5b_nogap(oldseqs[refId], alen) ==> forall r :: 0 <= r && r < nseq ==> c5b_rowok(code, base(newseqbuffer), r, oldseqs[r], phase, c5b_bl(base(newseqbuffer), r))
+//@     decreases naa - i
+//@   loop 7
+//@     invariant 0 <= compseqId && compseqId <= nseq && c5b_bl(base(newseqbuffer), refId) == entry(c5b_bl(base(newseqbuffer), refId))
+//@     invariant forall r :: 0 <= r && r < nseq ==> c5b_bl(base(newseqbuffer), r) == c5b_bl(base(newseqbuffer), refId) - (r >= compseqId && r != refId ? naa : 0)
+//# SLOW invariant c5b_nogap(oldseqs[refId], alen) ==> naa == 1 && c5b_cons(refcodonidx) && refcodonidx[0] == phase + 3 * (c5b_bl(base(newseqbuffer), refId) - 1)
+//# SLOW invariant c5b_nogap(oldseqs[refId], alen) ==> forall r :: 0 <= r && r < nseq ==> c5b_rowok(code, base(newseqbuffer), r, oldseqs[r], phase, c5b_bl(base(newseqbuffer), r))
+//@     decreases nseq - compseqId
+//@   loop 8
+//@     invariant refcodonidx[0] <= si && si <= refcodonidx[2] + 1 && 0 <= len(tmpseq) && len(tmpseq) <= si - refcodonidx[0] && fresh(tmpseq)
+//# SLOW invariant len(tmpseq) == si - refcodonidx[0] ==> forall j :: 0 <= j && j < len(tmpseq) ==> tmpseq[j] == oldseqs[compseqId].sequence[refcodonidx[0] + j]
+//# SLOW invariant (len(tmpseq) == si - refcodonidx[0]) == (forall p :: refcodonidx[0] <= p && p < si ==> oldseqs[compseqId].sequence[p] != '-')
+//# SLOW invariant (len(tmpseq) == 0) == (forall p :: refcodonidx[0] <= p && p < si ==> oldseqs[compseqId].sequence[p] == '-')
+//@     decreases refcodonidx[2] + 1 - si
+//@   loop 9
+//@     modifies gf(buflen; base(newseqbuffer) + 1 + compseqId), gfa(bufdata; base(newseqbuffer) + 1 + compseqId)
+//@     invariant 0 <= i && i <= naa && c5b_bl(base(newseqbuffer), compseqId) == entry(c5b_bl(base(newseqbuffer), compseqId)) + i
+//# SLOW invariant forall k :: 0 <= k && k < entry(c5b_bl(base(newseqbuffer), compseqId)) ==> c5b_bd(base(newseqbuffer), compseqId, k) == entry(c5b_bd(base(newseqbuffer), compseqId, k))
+//# SLOW invariant forall q :: 0 <= q && q < i ==> c5b_bd(base(newseqbuffer), compseqId, entry(c5b_bl(base(newseqbuffer), compseqId)) + q) == '-'
+//# SLOW invariant c5b_nogap(oldseqs[refId], alen) ==> c5b_rowok(code, base(newseqbuffer), compseqId, oldseqs[compseqId], phase, entry(c5b_bl(base(newseqbuffer), compseqId)) + i)
+//@     decreases naa - i
+//@   loop 10
+//@     modifies gf(buflen; base(newseqbuffer) + 1 + compseqId), gfa(bufdata; base(newseqbuffer) + 1 + compseqId)
+//@     invariant 0 <= i && i <= naa && c5b_bl(base(newseqbuffer), compseqId) == entry(c5b_bl(base(newseqbuffer), compseqId)) + i
+//# SLOW invariant forall k :: 0 <= k && k < entry(c5b_bl(base(newseqbuffer), compseqId)) ==> c5b_bd(base(newseqbuffer), compseqId, k) == entry(c5b_bd(base(newseqbuffer), compseqId, k))
+//# SLOW invariant forall q :: 0 <= q && q < i ==> c5b_bd(base(newseqbuffer), compseqId, entry(c5b_bl(base(newseqbuffer), compseqId)) + q) == 'X'
+//# SLOW invariant c5b_nogap(oldseqs[refId], alen) ==> c5b_rowok(code, base(newseqbuffer), compseqId, oldseqs[compseqId], phase, entry(c5b_bl(base(newseqbuffer), compseqId)) + i)
+//@     decreases naa - i
+//@   loop 11
+//@     modifies gf(buflen; base(newseqbuffer) + 1 + compseqId), gfa(bufdata; base(newseqbuffer) + 1 + compseqId)
+//@     invariant 0 <= n && si == 3 * n && si <= len(tmpseq) && c5b_bl(base(newseqbuffer), compseqId) == entry(c5b_bl(base(newseqbuffer), compseqId)) + n
+//# SLOW invariant forall k :: 0 <= k && k < entry(c5b_bl(base(newseqbuffer), compseqId)) ==> c5b_bd(base(newseqbuffer), compseqId, k) == entry(c5b_bd(base(newseqbuffer), compseqId, k))
+//# SLOW invariant forall k :: entry(c5b_bl(base(newseqbuffer), compseqId)) <= k && k < entry(c5b_bl(base(newseqbuffer), compseqId)) + n ==> tcrel(code, c5b_bd(base(newseqbuffer), compseqId, k), tmpseq[3*(k - entry(c5b_bl(base(newseqbuffer), compseqId)))], tmpseq[3*(k - entry(c5b_bl(base(newseqbuffer), compseqId)))+1], tmpseq[3*(k - entry(c5b_bl(base(newseqbuffer), compseqId)))+2])
+//# SLOW invariant c5b_nogap(oldseqs[refId], alen) ==> c5b_rowok(code, base(newseqbuffer), compseqId, oldseqs[compseqId], phase, entry(c5b_bl(base(newseqbuffer), compseqId)) + n)
+//@     decreases len(tmpseq) - si
+//@   loop 12
+//@     modifies gf(buflen; base(newseqbuffer) + 1 + compseqId), gfa(bufdata; base(newseqbuffer) + 1 + compseqId)
+//@     invariant n <= i && i <= naa && c5b_bl(base(newseqbuffer), compseqId) == entry(c5b_bl(base(newseqbuffer), compseqId)) + i - n
+//# SLOW invariant forall k :: 0 <= k && k < entry(c5b_bl(base(newseqbuffer), compseqId)) ==> c5b_bd(base(newseqbuffer), compseqId, k) == entry(c5b_bd(base(newseqbuffer), compseqId, k))
+//# SLOW invariant c5b_nogap(oldseqs[refId], alen) ==> c5b_rowok(code, base(newseqbuffer), compseqId, oldseqs[compseqId], phase, c5b_bl(base(newseqbuffer), compseqId))
+//@     decreases naa - i
+//@   loop 13
+//@     invariant err == nil && 0 <= i && i <= nseq && wfa(a) && nrows(a) == i && fresh(a.seqs) && fresh(a.seqmap)
+//@     invariant a.length == (i == 0 ? -1 : c5b_bl(base(newseqbuffer), refId))
+//@     invariant forall r :: 0 <= r && r < i ==> rowname(a, r) == old(rowname(a, r))
+//@     invariant forall k string :: has(a.seqmap, k) ==> exists r :: 0 <= r && r < i && old(rowname(a, r)) == k
+//# SLOW invariant forall r :: 0 <= r && r < i ==> fresh(row(a, r)) && fresh(row(a, r).sequence) && allocated(row(a, r).sequence)
+//# SLOW invariant forall r, k :: 0 <= r && r < i && 0 <= k && k < c5b_bl(base(newseqbuffer), refId) ==> cell(a, r, k) == c5b_bd(base(newseqbuffer), r, k)
+//@     decreases nseq - i
+
+// ---- codon alignment: nucleotide sequences threaded onto a protein alignment ----
+
+// IterateAll calls `it` on (name, sequence, comment) of the rows in order until it returns true; it writes nothing itself
+// (the effects of the function literal are accounted for at the call site by the verifier)
+// ((*seqbag).IterateAll: trusted contract in zz_contracts_c04b_verif.go)
+
+// number of residues (non-gap characters) among the first n of a protein row
+//@ pure func c5b_ng(s []uint8, n int) int = (n <= 0 ? 0 : c5b_ng(s, n-1) + (s[n-1] != '-' ? 1 : 0))
+
+// the nucleotide row called `name` (when there is one)
+//@ pure func c5b_nt(nt *seqbag, name string) []uint8 = nt.seqmap[name].sequence
+// a row is threaded iff the nucleotide sequence exists, holds the whole codon of every residue (not "shorter than its aa
+// counterpart") and at most two more bases after the codon of the last residue (not "longer")
+//@ pure func c5b_fits(nt *seqbag, name string, s []uint8) bool = has(nt.seqmap, name) && (forall k :: 0 <= k && k < len(s) && s[k] != '-' ==> 3 * c5b_ng(s, k) + 3 <= len(c5b_nt(nt, name))) && len(c5b_nt(nt, name)) <= 3 * c5b_ng(s, len(s)) + 2
+
+// the function literal of CodonAlign: threads ONE protein row (name, sequence) of the receiver
+//@ func (*align).CodonAlign$1
+//@   props C05
+//@   requires err == nil && buffer != nil && rtAl != nil && wfa(rtAl) && ntseqs != nil && wf(ntseqs)
+//@   ensures result == (err != nil)
+//@   ensures result == !old(c5b_fits(ntseqs, name, sequence))
+//@   ensures wfa(rtAl) && rtAl.alphabet == old(rtAl.alphabet)
+//@   ensures result ==> nrows(rtAl) == old(nrows(rtAl)) && rtAl.length == old(rtAl.length)
+//@   ensures !result && !old(has(rtAl.seqmap, name)) && (old(rtAl.length) == -1 || old(rtAl.length) == 3 * len(sequence)) ==> nrows(rtAl) == old(nrows(rtAl)) + 1 && rtAl.length == 3 * len(sequence) && rowname(rtAl, old(nrows(rtAl))) == name && rowlen(rtAl, old(nrows(rtAl))) == 3 * len(sequence)
+//@   ensures !result && !old(has(rtAl.seqmap, name)) && (old(rtAl.length) == -1 || old(rtAl.length) == 3 * len(sequence)) ==> forall k :: 0 <= k && k < len(sequence) && old(sequence[k]) == '-' ==> cell(rtAl, old(nrows(rtAl)), 3*k) == '-' && cell(rtAl, old(nrows(rtAl)), 3*k+1) == '-' && cell(rtAl, old(nrows(rtAl)), 3*k+2) == '-'
+//@   ensures !result && !old(has(rtAl.seqmap, name)) && (old(rtAl.length) == -1 || old(rtAl.length) == 3 * len(sequence)) ==> forall k :: 0 <= k && k < len(sequence) && old(sequence[k]) != '-' ==> cell(rtAl, old(nrows(rtAl)), 3*k) == old(c5b_nt(ntseqs, name)[3 * c5b_ng(sequence, k)]) && cell(rtAl, old(nrows(rtAl)), 3*k+1) == old(c5b_nt(ntseqs, name)[3 * c5b_ng(sequence, k) + 1]) && cell(rtAl, old(nrows(rtAl)), 3*k+2) == old(c5b_nt(ntseqs, name)[3 * c5b_ng(sequence, k) + 2])
+//@   ensures forall r :: 0 <= r && r < old(nrows(rtAl)) ==> row(rtAl, r) == old(row(rtAl, r))
+//@   modifies rtAl.seqs, rtAl.length, rtAl.seqs[+], map(rtAl.seqmap), gf(buflen; buffer), gfa(bufdata; buffer)
+//@   loop 1
+//@     invariant err == nil && 0 <= i && i <= len(sequence) && ntseqindex == 3 * old(c5b_ng(sequence, i)) && 0 <= ntseqindex && ntseqindex <= len(ntseq) && gf(buflen, buffer) == 3 * i && len(ntseq) <= cap(ntseq)
+//@     invariant forall k :: 0 <= k && k < i && old(sequence[k]) != '-' ==> 3 * old(c5b_ng(sequence, k)) + 3 <= len(ntseq)
+//@     invariant forall k :: 0 <= k && k < i && old(sequence[k]) == '-' ==> gfa(bufdata, buffer, 3*k) == '-' && gfa(bufdata, buffer, 3*k+1) == '-' && gfa(bufdata, buffer, 3*k+2) == '-'
+//@     invariant forall k :: 0 <= k && k < i && old(sequence[k]) != '-' ==> gfa(bufdata, buffer, 3*k) == old(c5b_nt(ntseqs, name)[3 * c5b_ng(sequence, k)]) && gfa(bufdata, buffer, 3*k+1) == old(c5b_nt(ntseqs, name)[3 * c5b_ng(sequence, k) + 1]) && gfa(bufdata, buffer, 3*k+2) == old(c5b_nt(ntseqs, name)[3 * c5b_ng(sequence, k) + 2])
+//@     decreases len(sequence) - i
+
+// CodonAlign itself: the two alphabet errors, else a fresh alignment that the function literal above fills row by row
+// (the verifier havocs what the literal writes after IterateAll, so the row-level facts are those of CodonAlign$1;
+// the frame below lists the heap regions the literal may write: all of them belong to the fresh alignment, the local
+// buffer and the variadic argument slices of fmt/log calls)
+//@ func (*align).CodonAlign
+//@   props C05
+//@   requires wfa(a) && ntseqs != nil && wf(ntseqs)
+//@   ensures old(a.alphabet) != AMINOACIDS || old(ntseqs.alphabet) != NUCLEOTIDS ==> err != nil && rtAl == nil
+//@   ensures old(a.alphabet) == AMINOACIDS && old(ntseqs.alphabet) == NUCLEOTIDS ==> rtAl != nil && fresh(rtAl)
+//@   modifies field(seqbag.seqs), field(align.length), mem(*seq), mem(uint8), maps(map[string]*seq), mem(any), gf(buflen), gfa(bufdata)
